@@ -96,6 +96,8 @@ func (h *transportHandler) HandleLinkLost(lnk link.Link) {
 		if el, elOk := h.c.links[luuid]; elOk && el.lnk == lnk {
 			delete(h.c.links, luuid)
 			h.c.flushEstablishedLink(el, false)
+			// wake the EstablishLink resolvers so that they drop the lost link.
+			broadcast()
 			return
 		}
 
@@ -105,6 +107,7 @@ func (h *transportHandler) HandleLinkLost(lnk link.Link) {
 			if l.lnk == lnk {
 				delete(h.c.links, k)
 				h.c.flushEstablishedLink(l, false)
+				broadcast()
 				break
 			}
 		}
